@@ -291,3 +291,42 @@ Proof.
 Qed.
 
 End RelTwin.
+
+(** ---------- warm-up: no warning / drift before the kernel's gate opens ---------- *)
+Section Warmup.
+Variable K : kernel.
+Variable gate : E K -> Z -> bool.     (* "enough data of the current epoch has been seen" *)
+Hypothesis decide_gated : forall e n x d,
+  snd (step_e K e n x) = Some d -> d <> DNone -> gate (fst (step_e K e n x)) n = true.
+Hypothesis undecided_keeps : forall e n x,
+  snd (step_e K e n x) = None -> gate e (n - 1) = true -> gate (fst (step_e K e n x)) n = true.
+
+Definition warm (s : st K) : Prop := ds s <> DNone -> gate (epoch s) (since s) = true.
+
+Lemma update_warm s x : warm s -> warm (update s x).
+Proof.
+  intros Hw. rewrite update_eq. cbv zeta. unfold warm. simpl.
+  destruct (snd (step_e K (epoch (pre K s)) (since (pre K s) + 1) x)) as [d|] eqn:Eod.
+  - intros Hd. exact (decide_gated _ _ _ d Eod Hd).
+  - intros Hd. apply undecided_keeps; [exact Eod|].
+    replace (since (pre K s) + 1 - 1) with (since (pre K s)) by lia.
+    unfold pre in *. destruct (is_drift (ds s)) eqn:Ed; [simpl in Hd; congruence|]. apply Hw. exact Hd.
+Qed.
+
+Theorem warmup_invariant e xs : warm (run (init K e) xs).
+Proof.
+  assert (H0 : warm (init K e)) by (unfold warm, init; simpl; congruence).
+  revert H0. generalize (init K e). induction xs as [|x xs IH]; intros s Hs; simpl; [exact Hs|].
+  apply IH. apply update_warm. exact Hs.
+Qed.
+End Warmup.
+
+(** counters of every reachable state *)
+Theorem counters_reachable (K : kernel) e xs :
+  let s := run (init K e) xs in
+  total s = Z.of_nat (length xs) /\ 0 <= since s <= total s.
+Proof.
+  cbv zeta. split.
+  - rewrite run_total. reflexivity.
+  - apply run_since_bounds. simpl. lia.
+Qed.
